@@ -172,10 +172,23 @@ func (c *Counter) Add(n int64) {
 					state = c.state.load()
 				}
 				debugPrintf("Add %q += %d: nil extra=%d\n", c.name, n, state.extra())
-			} else {
-				sum := c.add(uint64(n))
-				debugPrintf("Add %q += %d: count=%d\n", c.name, n, sum)
+				c.releaseReader(state)
+				// The pointer is nil because it was looked up before the
+				// counter file was mapped. Normally the counter is refreshed
+				// when the file is opened, but that can miss this counter
+				// (it may not have been on the file's list yet, or its
+				// pointer may have been reset while it had nothing to
+				// flush). If a file is mapped now, refresh the counter here,
+				// so that the count does not stay in memory until the next
+				// rotation.
+				if c.file.current.Load() != nil {
+					c.invalidate()
+					c.refresh()
+				}
+				return
 			}
+			sum := c.add(uint64(n))
+			debugPrintf("Add %q += %d: count=%d\n", c.name, n, sum)
 			c.releaseReader(state)
 			return
 
@@ -237,22 +250,25 @@ func (c *Counter) releaseLock(state counterStateBits) {
 				continue
 			}
 			debugPrintf("releaseLock %s: reset havePtr (extra=%d)\n", c.name, state.extra())
+			c.ptr = counterPtr{nil, nil}
+		}
 
+		if extra := state.extra(); extra != 0 {
 			// Optimization: only bother loading a new pointer
 			// if we have a value to add to it.
-			c.ptr = counterPtr{nil, nil}
-			if state.extra() != 0 {
+			// (This must be decided here, not when havePtr is set:
+			// extra may be added to while we hold the lock.)
+			if c.ptr.count == nil {
 				c.ptr = c.file.lookup(c.name)
 				debugPrintf("releaseLock %s: ptr=%v\n", c.name, c.ptr)
 			}
-		}
-
-		if extra := state.extra(); extra != 0 && c.ptr.count != nil {
-			if !c.state.update(&state, state.clearExtra()) {
-				continue
+			if c.ptr.count != nil {
+				if !c.state.update(&state, state.clearExtra()) {
+					continue
+				}
+				sum := c.add(extra)
+				debugPrintf("releaseLock %s: flush extra=%d -> count=%d\n", c.name, extra, sum)
 			}
-			sum := c.add(extra)
-			debugPrintf("releaseLock %s: flush extra=%d -> count=%d\n", c.name, extra, sum)
 		}
 
 		// Took care of refreshing ptr and flushing extra.
